@@ -978,6 +978,34 @@ def pat_chanfull(rnd, sid):
     return scn
 
 
+def pat_leak(rnd, sid):
+    """A composite written with `?` (no rollback) fails at its SECOND registration step: the insertion is rejected while
+    its first fd stays in the poller under the key of the slot it was given.  The source is handed back and kept.  What
+    it left behind must never reach the source that gets the slot next."""
+    r = rnd
+    srcs = [{"s": 1, "kind": "comp", "norollback": 1,
+             "children": [{"interest": "r", "mode": "level"}, {"interest": "r", "mode": "level"}]},
+            {"s": 2, "kind": r.choice(["comp", "comp", "ping"])},
+            {"s": 3, "kind": "ping"}]
+    if srcs[1]["kind"] == "comp":
+        srcs[1]["children"] = [{"interest": "r", "mode": r.choice(["level", "edge"])}]
+    steps = []
+    if r.random() < 0.5:
+        steps.append({"op": "insert", "s": 3})          # the failing insertion does not always get slot 0
+    steps += [{"op": "fault", "s": 1, "call": "child_register1"}, {"op": "insert", "s": 1}]
+    if r.random() < 0.5:
+        steps += [{"op": "wr", "s": 1, "c": 0}, {"op": "dispatch"}]
+    steps.append({"op": "insert", "s": 2})
+    steps += [{"op": "wr", "s": 1, "c": 0}, {"op": "dispatch"}, {"op": "dispatch"}]
+    if srcs[1]["kind"] == "comp":
+        steps += [{"op": "wr", "s": 2, "c": 0}, {"op": "dispatch"}]
+    else:
+        steps += [{"op": "ping", "s": 2}, {"op": "dispatch"}]
+    steps.append({"op": "dispatch"})
+    progs = {"s2": [{"ops": ([{"op": "rd", "s": 2, "c": 0}] if srcs[1]["kind"] == "comp" else []), "ret": "continue"} for _ in range(6)]}
+    return {"id": sid, "tick_us": 2000, "sources": srcs, "progs": progs, "steps": steps}
+
+
 def gen(seed, n, classes=None):
     classes = classes or CLASSES
     out = []
@@ -997,6 +1025,8 @@ def gen(seed, n, classes=None):
             out.append(pat_chanfull(rnd, "q%d_%s_%d" % (seed, cls, i)))
         elif cls == "execs":
             out.append(pat_exec(rnd, "e%d_%s_%d" % (seed, cls, i)))
+        elif 0.8 <= x < 0.9 and cls == "faults":
+            out.append(pat_leak(rnd, "k%d_%s_%d" % (seed, cls, i)))
         elif 0.55 <= x < 0.8 and cls == "faults":
             out.append(pat_faults(rnd, "f%d_%s_%d" % (seed, cls, i)))
         elif 0.4 <= x < 0.7 and cls == "idle":
